@@ -11,7 +11,11 @@ fn base() -> Options { Options::new() }
 fn ctx(tok: &str, k: usize) -> String { match k { 0 => tok.to_string(), 1 => format!("({} x)", tok), 2 => format!("(x {})", tok), _ => format!("#({})", tok) } }
 fn wrap(v: Value, k: usize) -> Value { match k { 0 => v, 1 => Value::list(vec![v, Value::symbol("x")]), 2 => Value::list(vec![Value::symbol("x"), v]), _ => Value::Vector(vec![v].into()) } }
 
-fn cases(_ob: &str) -> Vec<String> { (0..table().len()).map(|i| format!("tok:{}", i)).collect() }
+fn cases(_ob: &str) -> Vec<String> {
+    let mut out: Vec<String> = (0..table().len()).map(|i| format!("tok:{}", i)).collect();
+    for t in ["1+", "1-", "1/2", "1.5.6", "0x10", "12ab"] { out.push(format!("whole:{}", t)); }
+    out
+}
 
 fn table() -> Vec<(&'static str, Options, Option<Value>)> {
     let kw = |s: &str| Some(Value::keyword(s));
@@ -26,6 +30,9 @@ fn table() -> Vec<(&'static str, Options, Option<Value>)> {
         (":a:", base().with_keyword_syntax(KeywordSyntax::ColonPrefix), kw("a:")),
         ("#\\space", base().with_char_syntax(CharSyntax::Elisp), Some(Value::Char(' '))), ("#\\x41", base().with_char_syntax(CharSyntax::Elisp), Some(Value::Char('A'))), ("#\\a", Options::elisp(), Some(Value::Char('a'))),
         ("#\\space", base(), Some(Value::Char(' '))), ("?a", Options::elisp(), Some(Value::Char('a'))),
+        ("1+", base().with_leading_digit_symbols(true), sy("1+")), ("1-", Options::elisp(), sy("1-")), ("1/2", base().with_leading_digit_symbols(true), sy("1/2")), ("1.5.6", base().with_leading_digit_symbols(true), sy("1.5.6")),
+        ("0x10", base().with_leading_digit_symbols(true), sy("0x10")), ("12e", base().with_leading_digit_symbols(true), sy("12e")),
+        ("[a . b]", base(), Some(Value::cons(Value::symbol("a"), Value::symbol("b")))), ("[a b . c]", base(), Some(Value::append(vec![Value::symbol("a"), Value::symbol("b")], Value::symbol("c")))),
         ("k:", base(), sy("k:")), ("k:", base().with_keyword_syntax(KeywordSyntax::ColonPostfix), kw("k")),
         ("nil:", base().with_keyword_syntax(KeywordSyntax::ColonPostfix).with_nil_symbol(NilSymbol::Special), kw("nil")),
         ("#:k", base(), None), ("#:k", base().with_keyword_syntax(KeywordSyntax::Octothorpe), kw("k")),
@@ -40,7 +47,17 @@ fn table() -> Vec<(&'static str, Options, Option<Value>)> {
     ]
 }
 
+fn whole(case: &str) -> Option<String> {
+    // "whole:<tok>": with leading-digit symbols OFF a digit-initial token that is not a numeric literal is an error in every position
+    let tok = &case[6..];
+    for k in 0..4 {
+        let text = ctx(tok, k);
+        if let Ok(v) = from_str_custom(&text, base()) { return Some(format!("{:?} reads as {} although {:?} is neither a numeric literal nor (leading-digit symbols off) a symbol", text, v, tok)); }
+    }
+    None
+}
 fn check(case: &str) -> Option<String> {
+    if case.starts_with("whole:") { return whole(case); }
     let p: Vec<&str> = case.split(':').collect();
     let (tok, o, want) = table().into_iter().nth(p.get(1)?.parse::<usize>().ok()?)?;
     for k in 0..4 {
